@@ -1,5 +1,6 @@
 //! Correspondence streams built from the generators.
 use crate::gen;
+use crate::proggen::{self, Profile};
 use crate::progrun::run_program;
 use crate::rng::Rng;
 
@@ -22,4 +23,22 @@ pub fn expr(rng: &mut Rng, count: u64, emit: Emit) {
 /// reader of the driver skips it (it is there for the human reading a replay)
 pub fn sexp_escape(text: &str) -> String {
     text.chars().map(|c| match c { ' ' | '\n' | '\t' | '\r' => '␣', '(' => '⦅', ')' => '⦆', c => c }).collect()
+}
+
+pub fn profile_of(name: &str) -> Profile {
+    match name { "banks" => Profile::Banks, "regfile" => Profile::RegFile, "memory" => Profile::Memory,
+                 "status" => Profile::Status, _ => Profile::Dag }
+}
+
+/// S-PROG: whole programs, stepped several cycles
+pub fn prog(rng: &mut Rng, count: u64, profile: &str, emit: Emit) {
+    for _ in 0..count {
+        let g = proggen::program(rng, profile_of(profile));
+        let text = proggen::render_program(&g.stmts);
+        let out = run_program(&text, g.cycles, &g.mem, &format!("(tags {}) (text {})", g.tags.join(" "), sexp_escape(&text)));
+        match out.request {
+            Some(req) => emit(req, out.result),
+            None => emit(format!("(noparse {})", sexp_escape(&text)), out.result),
+        }
+    }
 }
